@@ -12,6 +12,10 @@ def closure_ret(ctx, t):
             f = ctx.prog.fns.get(s[1])
             if f and f.has_body:
                 yield s, TermCx(ctx.prog, f).local(0)
+        elif s[0] == "fnref" and s[1] in ctx.prog.fns and ctx.prog.fns[s[1]].has_body:
+            # a named function used as the mapping: its parameter is arg1; shift to the closure convention (arg2)
+            f = ctx.prog.fns[s[1]]
+            yield s, TermCx(ctx.prog, f, {1: ("arg", 2)}, 1).local(0)
 
 
 def sign_count_refusal(ctx):
@@ -57,7 +61,8 @@ def reconstruct_refusals(ctx):
         sinks = ok_sinks(f) | call_sinks(f, lambda ci, t: ci and ci.get("name") == "compute_lagrange_coefficient")
         refusal(ctx, f, "SEP", "G07:empty",
                 [("is_empty", cmp_fact("empty", arg(1), None, True)),
-                 ("len==0", cmp_fact("eq", length(arg(1)), const(0), True))], sinks)
+                 ("len==0", cmp_fact("eq", length(arg(1)), const(0), True)),
+                 ("min/first/.. is Some", succ_fact(nonempty_lookup(arg(1))))], sinks)
         w = Width()
         is_min = lambda t: mentions(t, call("min")) and mentions(t, arg(1))
         ok = refusal(ctx, f, "SEP", "G08:packages<min(min_signers)",
